@@ -128,7 +128,10 @@ ShellWeights(L, shells) == ShellWeightsV(L, shells, "ok")
             vector of a selected shell
    "span" : w90files/bkvectors.is_parallel_shell as intended - the new shell lies in the linear span of ONE selected shell
    "latt" : w90files/bkvectors.is_parallel_shell as written - the projector is built from the Cartesian vectors of the
-            selected shell, but it is applied to the MESH coordinates of the new shell (needs the integer basis L.A) *)
+            selected shell, but it is applied to the MESH coordinates of the new shell (needs the integer basis L.A)
+   "rank3": the same code when the Cartesian frame is in general position (the harness rotates the basis by a random
+            rotation): an integer triple read as a Cartesian vector lies in a rotated line or plane only if it is zero,
+            so a shell is skipped exactly when one selected shell spans all three dimensions (its projector vanishes) *)
 (* the linear span of a set S of integer vectors, as [rank, u, nrm]: rank 1 = multiples of u, rank 2 = the plane with
    normal nrm, rank 3 = everything *)
 SpanOf(S) == LET nz == {u \in S : u # VZero} IN
@@ -152,6 +155,7 @@ IsParallelShell(rule, L, sel, new) ==
    CASE rule = "pair" -> \E s \in 1..Len(sel) : \E u \in sel[s] : \E v \in new : Cross(u, v) = VZero
      [] rule = "span" -> \E s \in 1..Len(sel) : LET sp == SpanOf(sel[s]) IN \A v \in new : InSpanOf(v, sp)
      [] rule = "latt" -> \E s \in 1..Len(sel) : LET sp == SpanOf({CartOf(L, u) : u \in sel[s]}) IN \A v \in new : InSpanOf(v, sp)
+     [] rule = "rank3" -> \E s \in 1..Len(sel) : SpanOf(sel[s]).rank = 3
 
 (* one iteration of the loop `for i_shell in range(num_shells)` of find_bk_vectors (= the loop of find_shells).
    st = [q |-> squared length of the last shell looked at, sel |-> sequence of selected shells (sets of mesh vectors),
